@@ -13,6 +13,7 @@ import (
 	"mime/multipart"
 	"net/http"
 	"net/url"
+	"regexp"
 	"sort"
 	"strconv"
 	"strings"
@@ -264,14 +265,6 @@ func (t *SimTransport) Do(req *http.Request) (*http.Response, error) {
 			}
 			req.URL.RawQuery += f.Val
 		}
-	case "lie-length":
-		if n, err := strconv.ParseInt(f.Arg, 10, 64); err == nil && req.Body != nil && req.Body != http.NoBody {
-			// net/http's request writer sends the head with this length, copies the body and then notices that it
-			// is shorter: the writer task ends with an error and the peer sees a broken connection after the body
-			req.ContentLength = n
-			req.TransferEncoding = nil
-			ci.Rec.fire()
-		}
 	}
 
 	ci.Rec.ReqMethod, ci.Rec.ReqPath = req.Method, req.URL.EscapedPath()
@@ -354,6 +347,18 @@ func (t *SimTransport) attempt(req *http.Request, ci *callInfo, name string, att
 		if kind == "append" && req.Body != nil && req.Body != http.NoBody {
 			err = reframe(req, wire, func(ct string, body []byte) ([]byte, bool) { return append(body, f.Arg...), true })
 			ci.Rec.fire()
+		} else if kind == "lie-length" && req.Body != nil && req.Body != http.NoBody {
+			// the request is serialised as it is; then the declared length in its head is replaced by Arg. The peer gets
+			// the whole (short) body and then the end of the connection.
+			var buf bytes.Buffer
+			if err = req.Write(&buf); err == nil {
+				raw := buf.Bytes()
+				if loc := contentLengthLine.FindIndex(raw); loc != nil && loc[0] < bytes.Index(raw, []byte("\r\n\r\n"))+2 {
+					raw = append(append(append([]byte{}, raw[:loc[0]]...), []byte("\r\nContent-Length: "+f.Arg+"\r\n")...), raw[loc[1]:]...)
+					ci.Rec.fire()
+				}
+				_, err = wire.Write(raw)
+			}
 		} else if (kind == "drop-field" || kind == "dup-field") && req.Body != nil && req.Body != http.NoBody {
 			applied := false
 			err = reframe(req, wire, func(ct string, body []byte) ([]byte, bool) {
@@ -491,6 +496,8 @@ func (t *SimTransport) attempt(req *http.Request, ci *callInfo, name string, att
 		}
 	}
 }
+
+var contentLengthLine = regexp.MustCompile(`(?i)\r\nContent-Length: [0-9]+\r\n`)
 
 // pickPair finds the pair whose name is sel, or the i-th pair for sel "#i" (modulo the number of pairs).
 func pickPair(pairs []string, sel, sep string) int {
